@@ -4405,7 +4405,9 @@ def nan_to_num(
                     nan=nan,
                     posinf=posinf,
                     neginf=neginf,
-                )
+                ),
+                layout.identities,
+                layout.parameters,
             )
         else:
             return None
